@@ -33,7 +33,7 @@ func init() {
 		Run: c11Run,
 		Floors: func(m *Merged, tier string) []string {
 			var u []string
-			for _, c := range []string{"layout_negative_key", "layout_zero_key", "layout_maxkey_254", "layout_maxkey_255", "layout_maxkey_256", "layout_big_key", "layout_undefined_mode", "layout_regvarandop", "layout_prepopulated_then_regvarandop", "fetcher_slice", "fetcher_map", "registrations_checked", "weighted_sums", "ident_probes", "bindings_with_unregistered_extras"} {
+			for _, c := range []string{"layout_negative_key", "layout_zero_key", "layout_maxkey_254", "layout_maxkey_255", "layout_maxkey_256", "layout_big_key", "layout_undefined_mode", "layout_regvarandop", "layout_prepopulated_then_regvarandop", "fetcher_slice", "fetcher_map", "registrations_checked", "weighted_sums", "ident_probes", "pair_probes", "bindings_with_unregistered_extras"} {
 				if m.C(c) == 0 {
 					u = append(u, c+" = 0")
 				}
@@ -422,6 +422,22 @@ func c11Run(w *W, idx int) {
 			o := guard(func() (eval.Value, error) { return e.Eval(eval.NewCtxFromVars(c2, vals)) })
 			w.Evals++
 			return o
+		}
+		// two different variables as the two operands of one operator (every ordered neighbour pair)
+		for pi := 0; pi+1 < len(intVars); pi++ {
+			a, b := intVars[pi], intVars[pi+1]
+			if pi%2 == 1 {
+				a, b = b, a
+			}
+			src := fmt.Sprintf("(- %s %s)", a.name, b.name)
+			want := a.val.norm.(int64) - b.val.norm.(int64)
+			for _, optimize := range []bool{false, true} {
+				o := run(src, optimize)
+				w.Inc("pair_probes")
+				if o.Panic != nil || o.Err != nil || !valEq(o.V, want) {
+					w.Fail("wrong-value-delivered/pair", "%s = %s, expected %d (optimize=%v): the two variables did not both receive the values bound to their names\nbinding: %s\n%s", src, o, want, optimize, c11Binding(vals), layoutDesc)
+				}
+			}
 		}
 		for _, optimize := range []bool{false, true} {
 			o := run(sumSrc, optimize)
